@@ -7,7 +7,7 @@ import ast
 from ..astutil import calls_in, norm_stmt, path_of, unparse, walk_scope, walk_stmts
 from ..facts import Fact, atoms, enumerate_paths
 from ..report import Ctx
-from .common import always_before, need, node_of, protocol_schema
+from .common import always_before, expand, need, node_of, protocol_schema, single_defs
 
 MEM = "happysimulator/components/consensus/membership.py"
 PHI = "happysimulator/components/consensus/phi_accrual_detector.py"
@@ -131,8 +131,32 @@ def rule_probe_failure_suspects(ctx: Ctx) -> None:
            + ("" if not bad else " — path without: " + bad[0]))
 
 
+def rule_detector_per_member(ctx: Ctx) -> None:
+    """C13-6: a member's failure detector accumulates that member's heartbeat intervals, so every MemberInfo gets a detector *constructed
+    for it* (or a deep copy).  An alias or shallow copy of a shared detector pools all members' samples in one window: a silent member's
+    φ then falls whenever somebody else's heartbeat arrives."""
+    prog = ctx.prog
+    n = 0
+    for fn in prog.module(MEM).all_functions:
+        sd = single_defs(fn)
+        for c in calls_in(fn.node):
+            if path_of(c.func) != "MemberInfo":
+                continue
+            n += 1
+            det = [k.value for k in c.keywords if k.arg == "detector"]
+            d = expand(det[0], sd) if det else None
+            fresh = isinstance(d, ast.Call) and (path_of(d.func) in ("PhiAccrualDetector", "copy.deepcopy", "deepcopy"))
+            ctx.ob("C13-6", "G6", fn, c, bool(fresh), f"{fn.qual}: each member's detector is built for that member (found `{unparse(d)[:60] if d is not None else None}`) — detectors share no sample window")
+    need(n >= 1, "C13-6: no MemberInfo construction found")
+    # the detector's own state is per instance: created in __init__, not at class level
+    det = prog.cls(PHI, "PhiAccrualDetector")
+    cls_level = [norm_stmt(st) for st in det.node.body if isinstance(st, (ast.Assign, ast.AnnAssign)) and isinstance(getattr(st, "value", None), (ast.List, ast.Dict, ast.Set, ast.Call))]
+    ctx.ob("C13-6", "G6", None, "detector state is per instance", not cls_level, f"PhiAccrualDetector keeps its interval window on the instance (class-level containers: {cls_level})", relpath=PHI, node=det.node)
+
+
 def run(ctx: Ctx) -> None:
     prog = ctx.prog
+    ctx.guarded(rule_detector_per_member)
     ctx.guarded(rule_phi_shape)
     ctx.guarded(rule_probe_failure_suspects)
     c = prog.cls(MEM, "MembershipProtocol")
@@ -224,6 +248,7 @@ def run(ctx: Ctx) -> None:
 
 
 MUTANTS = [
+    ("members-share-one-detector", MEM, "            detector=PhiAccrualDetector(\n                threshold=self._phi_threshold,\n                initial_interval=self._probe_interval,\n            ),\n", "            detector=self._shared_detector,\n", "C13-6"),
     ("no-indirect-probes-no-suspicion", MEM, "        # Pick random delegates (excluding self and target)", "        if self._indirect_probe_count <= 0:\n            return []\n        # Pick random delegates (excluding self and target)", "C13-3"),
     ("probe-failure-does-not-suspect", MEM, "        self._suspect_member(info, self.now.to_seconds())\n", "", "C13-3"),
     ("phi-saturates-finite", PHI, "        if p <= 0:\n            return float(\"inf\")", "        if p <= 0:\n            return 307.65", "C13-6"),
